@@ -196,7 +196,21 @@ def dft(case, ctx):
     if case["prop_shape"] is not None:
         kw["prop_shape"] = cm.shape_arg(case["prop_shape"])
     if case["mask"] is not None:
-        kw["mask"] = case["mask"].copy()
+        # the output mask as 0/1 integers, booleans or positive floating-point weights - of order one, all tiny, or
+        # spanning hundreds of decades (an apodising window whose tails are 1e-300 of its peak): only its support matters
+        mform = ["int", "int", "bool", "weights", "weights_tiny", "weights_wide_range"][(int(np.count_nonzero(case["mask"])) + 3 * shape[0] + shape[1]) % 6]
+        mk_ = case["mask"].copy()
+        mrng = np.random.default_rng(int(np.count_nonzero(mk_)) + 7 * shape[1])
+        if mform == "bool":
+            mk_ = mk_.astype(bool)
+        elif mform == "weights":
+            mk_ = mk_ * mrng.uniform(0.2, 3.0, size=mk_.shape)
+        elif mform == "weights_tiny":
+            mk_ = mk_ * 1e-200
+        elif mform == "weights_wide_range":
+            mk_ = mk_ * 10.0 ** mrng.uniform(-300, 0, size=mk_.shape)
+        ctx.tag("out_mask_values:" + mform)
+        kw["mask"] = mk_
     with lentil_call("C02.dft", "propagate_dft"):
         out = lentil.propagate_dft(w, pixelscale=cm.as_ps(case["du"]), oversample=os_arg, **kw)
         got = out.field
